@@ -1,7 +1,11 @@
 From Coq Require Extraction.
 From Coq Require Import ExtrOcamlBasic.
 From OlaBase Require Import Bytes.
-From C05 Require Import Gen Model.
+From C05 Require Import Gen Model Ext.
 Extraction Language OCaml.
 Extraction "model.ml" io_witness N.div_eucl inflate inflate_request inflate_response inflate_disc_request
-  inflate_disc_response from_frame pack pack_o cmd_eq_cpp wf_cmd default_opts NOSTATUS.
+  inflate_disc_response from_frame pack pack_o cmd_eq_cpp wf_cmd default_opts NOSTATUS
+  mk_frame reply_of_raw pack_append pack_with_start_code response_with_pid response_from_data
+  nack_request nack_response duplicate is_request_cc is_response_cc
+  new_dub new_mute new_unmute is_dub set_request set_response verify_null
+  START_CODE SUB_START_CODE RDM_ACK RDM_NACK_REASON.
